@@ -102,6 +102,9 @@ def analyse_resolution(ctx, interp: Interp, om: OriginModel, consts: Consts, r: 
             ctx.ok("C05.3", f"{Q}.serialize at resolution {r}: id in [1, 2**64), fields {[(a, b) for a, b, _ in occ]}",
                    core.loc(SER, ret.node), f"id form {v}")
     layout[r] = {"encodes": True, "form": v, "fields": occ, "S": S}
+    if any(type(a).__name__ == "Opaque" for a, _ in v.terms):
+        # the id is not a sum of disjoint fields (already reported above); decoding an opaque word would only fork on every bit
+        return
 
     # ---- C05.5: the marker scanner recovers r, independently of S ------------------------------
     outs = interp.run_function(SER, "get_resolution", [v])
@@ -231,6 +234,33 @@ def run(ctx):
                    "every path raises")
     except (Budget, _Unmodelled) as e:
         ctx.unk("C05.3", f"{Q}: interpretation stopped", SER, f"{type(e).__name__}: {e}")
+
+    # C05.9: the ids enumerated at resolution r are exactly get_num_cells(r) many (expansion of the world cell)
+    try:
+        from .rules_C06 import Raises, Setup, children_family, const_call
+        su = Setup(ctx)
+        n_enum = 0
+        for r in range(0, consts.MAX + 1):
+            if su.ids.get(r) is None:
+                continue
+            rets, raises = children_family(su.interp, Lin(consts.WORLD), Lin(r))
+            want = const_call(su.interp, INFO, "get_num_cells", [r])
+            wloc = core.loc(SER, ctx.sources.func(SER, "cell_to_children"))
+            if len(rets) == 1 and isinstance(rets[0].value, ListV) and rets[0].value.length() is not None and not rets[0].state.path and isinstance(want, int):
+                got = rets[0].value.length()
+                n_enum += 1
+                # the enumerated ids must be distinct: the loop variables feed different fields of the id (decoded back)
+                elems = rets[0].value.segs
+                ctx.ob("C05.9", f"{Q}.cell_to_children(WORLD_CELL, {r}) enumerates get_num_cells({r}) ids",
+                       core.DISCHARGED if got == want else core.VIOLATED, wloc,
+                       f"enumeration has {got} entries (loop trip counts {[[c for _, c in sg.binders] for sg in elems]}), get_num_cells({r}) = {want}")
+            elif raises and not rets:
+                ctx.bad("C05.9", f"{Q}.cell_to_children(WORLD_CELL, {r}) raises", wloc, "the ids of a resolution cannot be enumerated")
+            else:
+                ctx.unk("C05.9", f"{Q}.cell_to_children(WORLD_CELL, {r}) vs get_num_cells({r})", wloc, "enumeration not summarised")
+        ctx.analysed["enumerations_compared"] = n_enum
+    except (Budget, _Unmodelled) as e:
+        ctx.unk("C05.9", f"{Q}: enumeration of ids", SER, f"{type(e).__name__}: {e}")
 
     # C05.4: markers strictly decreasing => resolution is a function of the id (also implied by C05.5)
     marks = []
